@@ -415,11 +415,11 @@ def _soup_cases(rng, n):
 def gen(rng, tier):
     q = tier == "quick"
     cases = []
-    cases += _valid_cases(rng, 60 if q else 300, 60 if q else 120)
+    cases += _valid_cases(rng, 60 if q else 600, 60 if q else 120)
     cases += _valid_cases(rng, 4 if q else 60, 0, big=True)
     cases += _limit_cases(rng, 6 if q else 80)
-    cases += _mutation_cases(rng, 120 if q else 800)
-    cases += _soup_cases(rng, 400 if q else 2500)
+    cases += _mutation_cases(rng, 120 if q else 1500)
+    cases += _soup_cases(rng, 400 if q else 5000)
     for _ in range(40 if q else 300):
         n = rng.choice([0, 1, 9, 10, 15, 16, 17, 255, 256, 257, 4095, 4096]) if rng.random() < 0.7 else rng.randrange(0, 70000)
         if n > 3000 and (q or rng.random() < 0.97):
